@@ -453,11 +453,17 @@ pub const ID_FORMS: &[(&str, IdF)] = &[
     ("A.is_zero", |a| AffineRepr::is_zero(&aff(a))),
     ("A==A::zero()", |a| aff(a) == <AffinePoint as AffineRepr>::zero()),
     ("A==A::default()", |a| aff(a) == AffinePoint::default()),
+    ("IDENTITY==E", |a| Element::IDENTITY == a),
+    ("default()==E", |a| Element::default() == a),
+    ("zero()==E", |a| Element::zero() == a),
+    ("A::zero()==A", |a| <AffinePoint as AffineRepr>::zero() == aff(a)),
+    ("A::default()==A", |a| AffinePoint::default() == aff(a)),
 ];
 #[cfg(not(feature = "ark"))]
 pub const ID_FORMS: &[(&str, IdF)] = &[
     ("is_identity", |a| a.is_identity()),
     ("==IDENTITY", |a| a == Element::IDENTITY),
+    ("IDENTITY==E", |a| Element::IDENTITY == a),
 ];
 
 #[cfg(feature = "ark")]
@@ -568,6 +574,23 @@ pub fn bigint_alphabet() -> Vec<Vec<u8>> {
     five.extend_from_slice(&[1, 0, 0, 0, 0, 0, 0, 0]);
     v.push(five); // r + 2^256: five limbs
     v.push(vec![]);
+    // integers of 6 .. 17 limbs: 2^(64 j) + 5, all-ones, r * 2^(64 j) (a multiple of the order), 2r * 2^512 + 3
+    for j in [5usize, 7, 8, 9, 12, 16] {
+        let mut x = vec![0u8; 8 * j];
+        x[0] = 5;
+        x.extend_from_slice(&[1, 0, 0, 0, 0, 0, 0, 0]);
+        v.push(x);
+        let mut y = vec![0u8; 8 * j];
+        y.extend_from_slice(&r);
+        v.push(y);
+    }
+    v.push(vec![0xff; 64]);
+    v.push(vec![0xff; 72]);
+    v.push(vec![0xff; 136]);
+    let mut z = vec![0u8; 64];
+    z[0] = 3;
+    z.extend_from_slice(&le_add(&r, &r));
+    v.push(z);
     v
 }
 pub fn small_scalar(r: &mut ChaCha20Rng) -> Vec<u8> {
@@ -1055,7 +1078,10 @@ pub fn record(suite: &str, n: usize, seed: u64, arg: &str, out: &mut dyn Write) 
             }
             for f in 0..SUM_FORMS.len() {
                 let long: Vec<usize> = (0..37).map(|i| (i * 5 + 2) % NREG).collect();
-                for srcs in [vec![], vec![2], vec![2, 4], vec![1, 2, 3, 4, 5], vec![6, 6, 6], vec![0, 1], long.clone()] {
+                // lengths around every plausible block size (batch normalisation, chunked accumulation)
+                let mk = |n: usize, step: usize| -> Vec<usize> { (0..n).map(|i| (i * step + 2) % NREG).collect() };
+                for srcs in [vec![], vec![2], vec![2, 4], vec![1, 2, 3, 4, 5], vec![6, 6, 6], vec![0, 1], long.clone(), mk(64, 7), mk(65, 5),
+                             mk(128, 7), mk(129, 5), mk(255, 7), mk(256, 5), mk(257, 7), mk(258, 5), mk(513, 7), mk(600, 5), mk(1030, 7)] {
                     let save = m.regs;
                     m.sum(f, &srcs, 0);
                     m.regs = save;
@@ -1188,10 +1214,13 @@ pub fn record(suite: &str, n: usize, seed: u64, arg: &str, out: &mut dyn Write) 
                 let len = match t % 8 {
                     5 => 31 + below(&mut r, 4),
                     6 => 40 + below(&mut r, 30),
+                    7 => [127usize, 128, 129, 255, 256, 257, 258, 300][(t / 8) % 8],   // around block / window thresholds
                     _ => below(&mut r, 7),
                 };
                 let srcs: Vec<usize> = (0..len).map(|_| below(&mut r, NREG)).collect();
-                let ks: Vec<Vec<u8>> = (0..len).map(|_| rand_scalar(&mut r)).collect();
+                let ks: Vec<Vec<u8>> = (0..len)
+                    .map(|i| if len > 100 && i % 64 != 63 { small_scalar(&mut r) } else { rand_scalar(&mut r) })
+                    .collect();
                 let f = m.rot(MSM_FORMS.len().max(1));
                 m.msm(f, &ks, &srcs, 0);
             }
@@ -1317,7 +1346,8 @@ pub fn record(suite: &str, n: usize, seed: u64, arg: &str, out: &mut dyn Write) 
                 }
                 let v: Value = serde_json::from_str(line).expect("json");
                 let b: Vec<u8> = serde_json::from_value(v["b"].clone()).expect("bytes");
-                let edge = v["kind"].as_str() == Some("edge_valid") || v["kind"].as_str() == Some("valid");
+                let kind = v["kind"].as_str().unwrap_or("");
+                let edge = kind == "edge_valid" || kind == "valid" || kind == "limb";
                 let reps = if edge { DEC32_FORMS.len() + DECSLICE_FORMS.len() } else { 1 };
                 for _ in 0..reps {
                     let j = m.rot(DEC32_FORMS.len() + DECSLICE_FORMS.len());
@@ -1330,6 +1360,27 @@ pub fn record(suite: &str, n: usize, seed: u64, arg: &str, out: &mut dyn Write) 
                         let f = m.rot(ENC_FORMS.len());
                         let j = m.rot(DEC32_FORMS.len() + DECSLICE_FORMS.len());
                         m.rt(f, j, 2, 3);
+                    }
+                    if edge {
+                        // other representatives of the same element (coset member, projective scaling, negation
+                        // twice, sum with an element and its inverse), each through every encoder
+                        m.torque(2, 4);
+                        let lam = rand_fq(&mut r) + Fq::from(2u64);
+                        m.rescale(&lam, 2, 5);
+                        m.rescale(&(lam + Fq::from(1u64)), 4, 6);
+                        m.neg(0, 2, 7);
+                        m.neg(1, 7, 7);
+                        m.konst(1, 8);
+                        m.bin(0, 2, 8, 9);
+                        m.bin(1, 9, 8, 9);
+                        for a in [2usize, 4, 5, 6, 7, 9] {
+                            for f in 0..ENC_FORMS.len() {
+                                m.enc(f, a);
+                            }
+                            for f in 0..ENCF_FORMS.len() {
+                                m.encf(f, a);
+                            }
+                        }
                     }
                 }
             }
@@ -1614,6 +1665,53 @@ pub fn record(suite: &str, n: usize, seed: u64, arg: &str, out: &mut dyn Write) 
     true
 }
 
+/// a fair stream whose first `left` draws are masked
+#[cfg(feature = "ark")]
+struct MaskedRng {
+    inner: ChaCha20Rng,
+    left: usize,
+    or32: u32,
+    and32: u32,
+    or64: u64,
+    and64: u64,
+    or8: u8,
+    and8: u8,
+}
+#[cfg(feature = "ark")]
+impl rand_core::RngCore for MaskedRng {
+    fn next_u32(&mut self) -> u32 {
+        let w = self.inner.next_u32();
+        if self.left > 0 {
+            self.left -= 1;
+            (w | self.or32) & self.and32
+        } else {
+            w
+        }
+    }
+    fn next_u64(&mut self) -> u64 {
+        let w = self.inner.next_u64();
+        if self.left > 0 {
+            self.left -= 1;
+            (w | self.or64) & self.and64
+        } else {
+            w
+        }
+    }
+    fn fill_bytes(&mut self, dest: &mut [u8]) {
+        self.inner.fill_bytes(dest);
+        if self.left > 0 {
+            self.left -= 1;
+            for x in dest.iter_mut() {
+                *x = (*x | self.or8) & self.and8;
+            }
+        }
+    }
+    fn try_fill_bytes(&mut self, dest: &mut [u8]) -> Result<(), rand_core::Error> {
+        self.fill_bytes(dest);
+        Ok(())
+    }
+}
+
 #[cfg(feature = "ark")]
 fn ctor_suite(m: &mut Machine, r: &mut ChaCha20Rng, n: usize) {
     use ark_ff::UniformRand;
@@ -1678,6 +1776,40 @@ fn ctor_suite(m: &mut Machine, r: &mut ChaCha20Rng, n: usize) {
             _ => ("Standard.sample::<AffinePoint>", guarded(|| Some(el(Distribution::<AffinePoint>::sample(&Standard, &mut rng))))),
         };
         put(m, name, &sd, res, i);
+    }
+    // samplers on adversarial streams: the first `hostile` draws are masked (all ones / all zeros / top bit set /
+    // low bit set, per draw width), the rest is a fair ChaCha stream, so a rejection sampler must still terminate
+    m.reset();
+    let masks: [(u32, u32, u64, u64, u8, u8); 7] = [
+        (0x8000_0000, !0, 0, !0, 0, 0xff),          // top bit of every 32-bit draw set (sign choice of the candidate)
+        (!0, !0, !0, !0, 0xff, 0xff),               // everything all ones
+        (0, 0, 0, 0, 0, 0),                         // everything zero
+        (0, 0x7fff_ffff, 0, !0, 0, 0xff),           // top bit of 32-bit draws clear
+        (0, !0, 0, 1, 0, 0xff),                     // 64-bit draws in {0, 1}
+        (0, !0, !0 << 1, !0, 0, 0xff),              // 64-bit draws >= 2^64 - 2
+        (1, !0, 1, !0, 1, 0xff),                    // low bit set
+    ];
+    let mut idx = 0usize;
+    for (mi, mk) in masks.iter().enumerate() {
+        // (a candidate costs ~16 draws, so the long prefixes force thousands of consecutive rejections;
+        //  the sign-forcing mask gets several independent streams)
+        let lens: Vec<usize> = if mi == 0 { vec![1, 64, 300, 4099, 20000, 30000, 30001, 30002, 30003, 30004, 30005, 100000] }
+                               else { vec![1, 9, 64, 255, 300, 1000, 4099, 20000, 100000] };
+        for hostile in lens {
+            idx += 1;
+            if idx % 20 == 19 {
+                m.reset();
+            }
+            let inner = rand_chacha::ChaCha20Rng::seed_from_u64(r.next_u64());
+            let mut rng = MaskedRng { inner, left: hostile, or32: mk.0, and32: mk.1, or64: mk.2, and64: mk.3, or8: mk.4, and8: mk.5 };
+            let mut arg = vec![mi as u8];
+            arg.extend_from_slice(&(hostile as u32).to_le_bytes());
+            let (name, res): (&str, Result<Option<Element>, String>) = match idx % 2 {
+                0 => ("Element::rand[masked]", guarded(|| Some(Element::rand(&mut rng)))),
+                _ => ("AffinePoint::rand[masked]", guarded(|| Some(el(AffinePoint::rand(&mut rng))))),
+            };
+            put(m, name, &arg, res, idx);
+        }
     }
     // batch conversions of mixed representatives
     m.reset();
